@@ -187,7 +187,23 @@ func (c *Cluster) waitStable(n *Node, watchdog time.Duration) error {
 	case <-time.After(watchdog):
 		return fmt.Errorf("watchdog")
 	}
-	return c.adminRet(n, "waitstable", oid, t, nil)
+	err := c.adminRet(n, "waitstable", oid, t, nil)
+	if cfg, ok := t.Result().(raft.Config); ok && err == nil {
+		// what the task returned belongs to the caller: a client prepares its
+		// next request in it. The node's own configuration must not follow.
+		const ghost = 9999
+		cfg.Nodes[ghost] = raft.Node{ID: ghost, Addr: "ghost:1"}
+		info, ok := n.info(false)
+		delete(cfg.Nodes, ghost)
+		rec := &ev.Rec{K: "result-ownership", Op: "waitstable", Kind: "private"}
+		if ok {
+			if _, shared := info.Configs.Latest.Nodes[ghost]; shared {
+				rec.Kind = "shared"
+			}
+			c.rc.emitNode(n.dir, rec)
+		}
+	}
+	return err
 }
 
 // background samplers ----------------------------------------------------------
